@@ -614,7 +614,7 @@ def op_strategy(nb: int):
     length = st.one_of(st.none(), LENS, LENS)
     notify = st.tuples(st.just('notify'), target, length, st.sampled_from([False, False, False, True]), GAPS)
     indicate = st.tuples(st.just('indicate'), target, length, st.sampled_from([False, False, False, True]),
-                         st.sampled_from(['now', 'now', 'tick', 'wait']))
+                         st.sampled_from(['now', 'now', 'tick', 'wait', 'p1', 'p6']))
     reads = weighted((3, class_template(att.ATT_Read_Blob_Request)), (1, class_template(att.ATT_Read_Request)),
                      (1, class_template(att.ATT_Read_By_Type_Request)))
     return {
@@ -720,6 +720,23 @@ def fill_cases(ctx):
                         if (zlib.crc32(b'%d' % i) % 4 != rot) if ctx.quick else (i % ctx.nshards != ctx.shard):
                             continue
                         yield fill_build(kind, slack, n, vl, wide, i % 5, [0, 0] if i % 3 else [1, 1])
+
+
+def indicate_overlap_case():
+    """Several indications on one subscribed bearer with generated overlaps: each call starts at once, a tick, 1 s or 6 s
+    after the previous one, while the peer confirms after 0 / 0.2 / 5 / 29 s or never - so that indications are
+    queued behind an unconfirmed one, released by a confirmation, and started while a released one is unconfirmed."""
+    db = {'services': [{'uuid': u16(0xABCD), 'primary': True, 'inc': [], 'chars': [
+        _ch(u16(0x1234), 0x3A, 0x03, 'static', 5), _ch(u16(0x1235), 0x22, 0x03, 'static', 3)]}]}
+    gaps = st.sampled_from(['now', 'now', 'tick', 'p1', 'p1', 'p6'])
+    one = st.tuples(st.just('indicate'), st.tuples(st.just('sub'), st.integers(0, 1)), st.one_of(st.none(), st.integers(0, 30)),
+                    st.sampled_from([False, False, True]), gaps)
+    sub = [('pdu', {'op': 0x12, 'parts': [('h', ('cccd', k)), ('lit', b'\x02\x00')]}, 'wait', 0) for k in (0, 1)]
+    return st.tuples(st.lists(one, min_size=3, max_size=6),
+                     st.lists(st.sampled_from([0, 0, 0.2, 5, 5, 29, None]), min_size=2, max_size=5),
+                     st.sampled_from([23, 64])).map(
+        lambda d: {'bearer': 'fixed', 'db': db, 'server_mtu': d[2], 'sec': [0, 0], 'confirm': d[1], 'delays': [],
+                   'ops': sub + list(d[0]) + [('settle',), ('pdu', LIVENESS, 'wait', 0)]})
 
 
 def sweep_case(op: int):
@@ -864,6 +881,10 @@ async def _drive(loop, case, S):
     async def gap(g):
         if g == 'tick':
             await asyncio.sleep(0.01)
+        elif g == 'p1':  # pauses shorter than some confirmation delays: the next operation starts while an
+            await asyncio.sleep(1.0)  # earlier indication is still unconfirmed and later ones are queued
+        elif g == 'p6':
+            await asyncio.sleep(6.0)
 
     for i, op in enumerate(ops):
         if cur is None:
@@ -1172,6 +1193,8 @@ def run(ctx) -> None:
         if ctx.out_of_time():
             break
         run_case(ctx, c)
+    # 2c. overlapping indications on one bearer
+    ctx.hyp('indicate_overlap', lambda c: run_case(ctx, c), indicate_overlap_case(), max_examples=ctx.n(150, 8000))
     # 3. enhanced bearers
     ctx.hyp('eatt', lambda c: run_case(ctx, c), eatt_case(), max_examples=ctx.n(320, 24000))
     for label, n in (
